@@ -125,6 +125,12 @@ CHECKS["C11"] = dict(
    note="Trusted: z3, symx.ptfront, exoplanet Kepler op contract, pymc's Normal logp; the prior part of model.logp (transforms/Jacobians) and NUTS outside; float constants compared within 1e-9.",
    technique="symbolic evaluation of the real pytensor graphs + z3 (UF congruence, small NRA with named reciprocals); numeric replay of the real model against twobody",
    ref="3/C11")
+CHECKS["C18"] = dict(
+   text="Validity predicates as symbolic variables: the real JokerPrior.__init__ runs on stand-in parameters whose 'is present', 'carries a unit', 'has an owner', 'owner.op is a RandomVariable' are symbolic booleans and whose unit / distribution print name are symbolic choices from menus (canonical, other equivalent, wrong-dimension, angle-vs-dimensionless units; Normal, FixedCompanionMass, LogNormal, HalfNormal, Uniform, StudentT); "
+        "the explorer forks on every check the validators perform and z3 decides per path that acceptance is equivalent to the property's validity predicate, plus par_names order. validate_prepare_data's source checks (count mismatch, non-RVData, covariance source, single source with offsets) and TheJoker.__init__'s argument checks run on the real code as well.",
+   note="Trusted: stand-ins expose exactly what the validators inspect; one invalid parameter at a time; poly_trend<=3, n_offsets<=2, <=3 sources.",
+   technique="symbolic execution of the real validators with symbolic validity predicates + z3; candidates replayed with real pymc variables",
+   ref="3/C18")
 NOT_YET = {}
 ALL = ["C%02d" % i for i in range(1, 20)]
 
